@@ -3411,3 +3411,154 @@ func E4ClassRecordsTogether(c *core.Ctx, r *core.Report) {
 	r.Count("E4.class-records-together", n)
 	r.Floor("E4.class-records-together", 1)
 }
+
+// E4SliceLengthGuarded: a slice that trims both ends of a string is taken only when the string is long enough.
+func E4SliceLengthGuarded(c *core.Ctx, r *core.Report) {
+	r.Rule("E4.slice-length-guarded", "ParseSVG never panics. In the SVG importer (svg.go) every slice of a string value that cuts a constant number of bytes from both ends, `v[a : len(v)-b]`, is reached under conditions (the true branches of enclosing if statements) that establish len(v) ≥ a+b: comparisons of len(v) with constants and strings.HasPrefix/HasSuffix with a literal. `url(x#)` — seven characters with the hash in sixth place — reached `val[6:len(val)-2]` under `6 < len(val)` only, and ParseSVG panicked with slice bounds out of range")
+	p := c.MustPkg("")
+	info := p.TypesInfo
+	n := 0
+	for _, fd := range core.AllFuncDecls(p) {
+		if fd.Body == nil || !strings.HasSuffix(c.Fset.Position(fd.Pos()).Filename, "/svg.go") && c.Fset.Position(fd.Pos()).Filename != "svg.go" {
+			continue
+		}
+		k := 0
+		var stack []ast.Node
+		ast.Inspect(fd.Body, func(m ast.Node) bool {
+			if m == nil {
+				stack = stack[:len(stack)-1]
+				return true
+			}
+			stack = append(stack, m)
+			se, ok := m.(*ast.SliceExpr)
+			if !ok || se.Low == nil || se.High == nil {
+				return true
+			}
+			xid, ok := core.Unparen(se.X).(*ast.Ident)
+			if !ok {
+				return true
+			}
+			if b, ok := info.TypeOf(xid).Underlying().(*types.Basic); !ok || b.Info()&types.IsString == 0 {
+				if _, isSlice := info.TypeOf(xid).Underlying().(*types.Slice); !isSlice {
+					return true
+				}
+			}
+			a, okA := core.ConstInt(info, se.Low)
+			hb, okB := core.Unparen(se.High).(*ast.BinaryExpr)
+			if !okA || !okB || hb.Op != token.SUB || types.ExprString(core.Unparen(hb.X)) != "len("+xid.Name+")" {
+				return true
+			}
+			b, okC := core.ConstInt(info, hb.Y)
+			if !okC {
+				return true
+			}
+			need := a + b
+			k++
+			n++
+			key := fmt.Sprintf("canvas.%s|slice #%d of `%s` needs %d bytes", core.FuncName(fd), k, xid.Name, need)
+			known := int64(0)
+			// early exits before the slice: `if len(v) < K { break / return / continue }` as an earlier statement of an
+			// enclosing statement list establishes len(v) ≥ K
+			for i := len(stack) - 2; i >= 0; i-- {
+				var list []ast.Stmt
+				switch b := stack[i].(type) {
+				case *ast.BlockStmt:
+					list = b.List
+				case *ast.CaseClause:
+					list = b.Body
+				}
+				for _, st := range list {
+					if st.End() > se.Pos() {
+						break
+					}
+					is, ok := st.(*ast.IfStmt)
+					if !ok || is.Else != nil || len(is.Body.List) == 0 {
+						continue
+					}
+					switch is.Body.List[len(is.Body.List)-1].(type) {
+					case *ast.ReturnStmt, *ast.BranchStmt:
+					default:
+						continue
+					}
+					if be, ok := core.Unparen(is.Cond).(*ast.BinaryExpr); ok && types.ExprString(core.Unparen(be.X)) == "len("+xid.Name+")" {
+						if v, ok := core.ConstInt(info, be.Y); ok {
+							if be.Op == token.LSS && v > known {
+								known = v
+							}
+							if be.Op == token.LEQ && v+1 > known {
+								known = v + 1
+							}
+						}
+					}
+				}
+			}
+			for i := len(stack) - 2; i >= 0; i-- {
+				is, ok := stack[i].(*ast.IfStmt)
+				if !ok || !(is.Body.Pos() <= se.Pos() && se.Pos() < is.Body.End()) {
+					continue
+				}
+				prefix, suffix := "", ""
+				defer0 := func() {
+					if prefix != "" && suffix != "" {
+						// both a prefix and a suffix: the shortest string that has them
+						ov := 0
+						for k := 1; k <= len(prefix) && k <= len(suffix); k++ {
+							if prefix[len(prefix)-k:] == suffix[:k] {
+								ov = k
+							}
+						}
+						if l := int64(len(prefix) + len(suffix) - ov); l > known {
+							known = l
+						}
+					}
+				}
+				var conj func(e ast.Expr)
+				conj = func(e ast.Expr) {
+					e = core.Unparen(e)
+					if be, ok := e.(*ast.BinaryExpr); ok && be.Op == token.LAND {
+						conj(be.X)
+						conj(be.Y)
+						return
+					}
+					switch x := e.(type) {
+					case *ast.BinaryExpr:
+						isLen := func(e ast.Expr) bool { return types.ExprString(core.Unparen(e)) == "len("+xid.Name+")" }
+						if v, ok := core.ConstInt(info, x.X); ok && isLen(x.Y) {
+							if x.Op == token.LSS && v+1 > known {
+								known = v + 1
+							}
+							if x.Op == token.LEQ && v > known {
+								known = v
+							}
+						}
+					case *ast.CallExpr:
+						if f := core.CalleeOf(info, x); f != nil && f.Pkg() != nil && f.Pkg().Path() == "strings" && (f.Name() == "HasPrefix" || f.Name() == "HasSuffix") && len(x.Args) == 2 {
+							if id, ok := core.Unparen(x.Args[0]).(*ast.Ident); ok && id.Name == xid.Name {
+								if lit, ok := constString(info, x.Args[1]); ok {
+									if int64(len(lit)) > known {
+										known = int64(len(lit))
+									}
+									if f.Name() == "HasPrefix" {
+										prefix = lit
+									} else {
+										suffix = lit
+									}
+								}
+							}
+						}
+					}
+				}
+				conj(is.Cond)
+				defer0()
+			}
+			if known >= need {
+				r.OK("E4.slice-length-guarded", key, c.Pos(se.Pos()), fmt.Sprintf("len ≥ %d established", known))
+			} else {
+				r.Fail("E4.slice-length-guarded", key, c.Pos(se.Pos()), fmt.Sprintf("`%s` cuts %d bytes from the front and %d from the back, but the conditions on the way establish only len(%s) ≥ %d: a shorter value makes the slice bounds cross and ParseSVG panics instead of returning an error or a result", types.ExprString(se), a, b, xid.Name, known))
+			}
+			return true
+		})
+	}
+	r.Count("E4.slice-length-guarded", n)
+	r.Floor("E4.slice-length-guarded", 2)
+}
